@@ -65,6 +65,41 @@ def handle : List String → Verdict
         tags := ["class:" ++ cls, if kept then "kept" else "replaced"],
         sig := s!"css;{cls}" }
     | _, _, _, _, _, _ => .badOp
+  | ["cssform", form, pH, vH, ipH, ivH, outS] =>
+    -- the pair in another container form: sanitised like the plain map, or refused - never passed through
+    match hexField pH, hexField vH, hexField ipH, hexField ivH with
+    | some p, some _v, some ip, some iv =>
+      let want := ip ++ [58] ++ iv ++ [59]
+      let refused := Bytes.ofString "zTemplUnsupportedStyleAttributeValue:Invalid;"
+      let cls := classOf p
+      match (if outS == "ERR" then none else hexField outS) with
+      | none => { nontrivial := false, tags := ["form:" ++ form ++ ":error"], sig := "cssform" }
+      | some out =>
+        { predfail := if out == refused || Html.decodeRefs out == want then none else
+            some s!"style attribute value of form {form}: got {Bytes.toHex out}, neither the sanitised declaration {Bytes.toHex want} nor the refusal",
+          nontrivial := out != refused, tags := ["form:" ++ form ++ (if out == refused then ":refused" else ":accepted")], sig := s!"cssform;{form};{cls}" }
+    | _, _, _, _ => .badOp
+  | ["cssattr", pH, vH, ipH, ivH, docH] =>
+    -- `<p style={ map[string]string{p: v} }>` rendered by generated code: what a browser reads as the attribute's value
+    -- (character references decoded once) is exactly `name:value;` of the sanitised pair
+    match hexField pH, hexField vH, hexField ipH, hexField ivH, hexField docH with
+    | some p, some _v, some ip, some iv, some doc =>
+      let want := ip ++ [58] ++ iv ++ [59]
+      let cls := classOf p
+      match HtmlTok.tokenize doc with
+      | .startTag [112] attrs false :: _ =>
+        match attrs.lookup [115, 116, 121, 108, 101] with
+        | some val =>
+          if val == want then { nontrivial := Html.escape want != want, tags := ["style-attribute-end-to-end"], sig := s!"cssattr;{cls}" }
+          else if Html.decodeRefs val == want then
+            { predfail := some s!"style attribute escaped twice: the browser reads {Bytes.toHex val} where the sanitised declaration is {Bytes.toHex want} (every `;` of a character reference ends a declaration)",
+              nontrivial := true, tags := ["style-attribute-end-to-end"], sig := "cssattr;escaped-twice" }
+          else
+            { predfail := some s!"style attribute read by the browser {Bytes.toHex val} is not the sanitised declaration {Bytes.toHex want}",
+              nontrivial := true, tags := ["style-attribute-end-to-end"], sig := s!"cssattr;wrong;{cls}" }
+        | none => { predfail := some "no style attribute in the rendered element", nontrivial := true, sig := "cssattr;missing" }
+      | _ => { predfail := some "the rendered document does not start with the <p> element", nontrivial := true, sig := "cssattr;structure" }
+    | _, _, _, _, _ => .badOp
   | ["cssc", pH, vH, docH, orS] =>
     match hexField pH, hexField vH, hexField docH, parseOracle orS with
     | some p, some v, some doc, some orc =>
